@@ -20,7 +20,8 @@ ASSUMPTIONS = ['vmon.refspec transcribes the reply-code table of the '
 
 
 def shards(tier, seed):
-    return [{'name': 'walk'}]
+    return common.with_configs([{'name': 'walk'}], common.ALL_CONFIGS,
+                               take=1)
 
 
 _WHEN = ''
